@@ -1,6 +1,6 @@
 """C14 -- parameter operators compute their documented tensor operation (structural clauses)."""
 from ..core import Ctx, Ob, PropSpec
-from ..rules import r5 as r5_, r1, r3, r4, r5, r4r, r12b
+from ..rules import r5 as r5_, r1, r3, r4, r5, r4r, r12b, r11
 
 
 def run(ctx: Ctx) -> list[Ob]:
@@ -22,6 +22,7 @@ def run(ctx: Ctx) -> list[Ob]:
     obs += r3.r3i(ctx)
     obs += r3.r3j(ctx)
     obs += r12b.pattern_entry_subclasses(ctx)
+    obs += r11.r11k(ctx)
     return obs
 
 
@@ -42,6 +43,7 @@ SPEC = PropSpec(
         "or index that only works when two independent sizes coincide is reported at the operator. R4p: every parameter-operator compile rule, interpreted on an abstract symbolic node (ranks 1..3, every axis), returns a torch node whose declared shape and normalised axis equal the symbolic node's. R4l (element order, layout typing): wherever a parameter operator creates an axis out of the units of several operands (outer product / sum, Kronecker, polynomial product, the three Gaussian-product statistics) the earlier operand is major -- sizes commute, element orders do not: a transposed flattening has the declared shape and the wrong values; flatten is in increasing axis order and the mixing-weight columns are arity major, the order the sum layer contracts them in. R5c: every return path of forward of a parameter node that registers an index tensor as a buffer (index parameter, pointer) reads that buffer. R4g: one iteration of ParameterAddressBook.lookup on abstract entries hands a node operands of shape (F, *s) gathered from one or two source nodes by a fold index, or the whole (F1, *s) tensor through the index-free form -- 'composite parameter graphs evaluate to the composition of their nodes, independently for every fold'."
         " R5d (exponent ramp, by abstract interpretation with integer-ramp values and slice origins): in TorchPolynomialDifferential.forward, for order 1 and 2 (3 in the thorough tier), every product of a slice of the coefficient axis with an integer ramp pairs the coefficient of x^n with the multiplier n (slice origin == first value of the ramp), one such step per order -- a hoisted arange sliced by the loop counter multiplies the later steps by shifted numbers of the right shape."
         " R5f: TorchScaledSigmoidParameter.forward, evaluated as a polynomial in vmin, vmax and S = sigmoid(x), is affine in S with value vmin at S = 0 and vmax at S = 1. R3i: in every config / fold_settings / params of a torch-side module an optional hyper-parameter is included under a None-test, never under a bare truthiness test (a bound of exactly 0.0 would be dropped when the folder / optimiser rebuilds the module from its config). R3j: every value a torch-side config returns is hashable (no list display / list(..) / Tensor.tolist(), directly or through a property): the folder uses (type, *fold_settings) with fold_settings = config.items() as a dictionary key. R12c: no strict subclass of a class named by an optimisation pattern's entries() redefines an evaluation method -- the matchers test isinstance, so such a subclass is rewritten by an identity that holds for its parent only."
+        " R11k: any hand-written exp(x - max(x)) in a torch-side forward makes the shift finite first (an all -inf row is log 0, not nan), as the semiring reductions do."
     ),
     not_decided="the mathematical content of each operator (numerical).",
     run=run,
